@@ -477,18 +477,18 @@ func identKey(sb *strings.Builder, v any) {
 // ---- engine --------------------------------------------------------------------------
 
 type engine struct {
-	r        *core.Run
-	s        *fqrun.Session
-	fam      []qnode // all nodes (position 1)
-	core     []qnode // nodes for positions >= 2
-	drivers  map[string]string
-	isolated map[string]*isoT
-	inSet    map[*decode.Value]bool // nodes that are enumerated as values (by some shard)
-	seen     map[uint64]bool        // carriers already expanded in this shard
-	maxLevel int
+	r         *core.Run
+	s         *fqrun.Session
+	fam       []qnode // all nodes (position 1)
+	core      []qnode // nodes for positions >= 2
+	drivers   map[string]string
+	isolated  map[string]*isoT
+	inSet     map[*decode.Value]bool // nodes that are enumerated as values (by some shard)
+	seen      map[uint64]bool        // carriers already expanded in this shard
+	maxLevel  int
 	samples   int
 	followAll bool // thorough: every parameter value of a first node is continued
-	only     string
+	only      string
 }
 
 func newEngine(r *core.Run, s *fqrun.Session) *engine {
@@ -1098,6 +1098,7 @@ func run(r *core.Run) {
 		}
 	}
 	if r.ShardIdx == 0 {
+		r.Extra("corpus_values_per_tree_cap_breadth_first", core.Pick(r, 40, 150))
 		r.Extra("trees", len(trees))
 		r.Extra("values", len(vals))
 		r.Logf("%d trees, %d values, %d nodes (%d core)", len(trees), len(vals), len(e.fam), len(e.core))
@@ -1352,6 +1353,8 @@ func replay(r *core.Run, raw json.RawMessage) bool {
 		e.structural(one)
 	case "underscore":
 		e.underscore(one)
+	case "cli":
+		e.cli()
 	default:
 		e.queries(one)
 	}
